@@ -5,7 +5,7 @@
    source builds now. *)
 From Coq Require Import List Bool Arith NArith Lia.
 From TF Require gen.QueryGen.
-From TF Require Import Base Query QuerySem proofs.QueryP.
+From TF Require Import Base Query QuerySem Spec proofs.QueryP.
 Import ListNotations.
 
 Fixpoint enc (h : hv) : pyh :=
@@ -135,3 +135,48 @@ Theorem gen_tables : (forall c, QueryGen.cmp_operator (meth_of_cmp c) = c) /\
   QueryGen.s_and_operator = BAnd /\ QueryGen.s_or_operator = BOr /\ QueryGen.s_not_operator = BNot /\
   QueryGen.c_and_operator = BAnd /\ QueryGen.c_or_operator = BOr /\ QueryGen.c_not_operator = BNot.
 Proof. repeat split; try reflexivity. intros []; reflexivity. Qed.
+
+(* ---- evaluation: SimpleQuery.__call__, CompoundQuery.__call__ and the test closure, as the source writes them ------------------------- *)
+Section GenEval.
+Variable E : env.
+
+(* what a test that is NOT a comparison answers when called (exists: lambda _: True; regex tests are False off strings; a user function may raise) *)
+Definition plain_test (t : test) (v : value) : res :=
+  match t with
+  | TCmp _ _ => RB false                                        (* not used: comparisons go through `compared` *)
+  | TExists => RB true
+  | TMatch re fl => RB (match v with VStr s => (if QueryGen.matches_is_search then rsearch E else rmatch E) re fl s | _ => false end)
+  | TSearch re fl => RB (match v with VStr s => (if QueryGen.search_is_search then rsearch E else rmatch E) re fl s | _ => false end)
+  | TUser id => match tenv E id v with Some b => RB b | None => RRaise end
+  end.
+(* operator(x, rhs) with the operator the dunder names (gen/QueryGen.v: cmp_operator); None = the comparison raised *)
+Definition compared (t : test) (v : value) : option bool :=
+  match t with TCmp c rhs => pycmp (QueryGen.cmp_operator (meth_of_cmp c)) v rhs | _ => None end.
+Definition against_rhs (t : test) : bool := match t with TCmp _ _ => true | _ => false end.
+
+Fixpoint gen_eval (q : query) (p : point) : res :=
+  match q with
+  | QS a path t => QueryGen.gen_simple_call (resolve E path (attr_value a p))
+                     (fun v => QueryGen.gen_test (against_rhs t) (plain_test t v) (compared t v))
+  | QNoop a => QueryGen.gen_simple_call (Some (attr_value a p)) (fun _ => RB true)      (* noop(): path_resolver = lambda x: x, test = lambda _: True *)
+  | QAnd l r => QueryGen.gen_compound_call (if is_simple l then QueryGen.s_and_operator else QueryGen.c_and_operator) (gen_eval l p) (Some (gen_eval r p))
+  | QOr l r => QueryGen.gen_compound_call (if is_simple l then QueryGen.s_or_operator else QueryGen.c_or_operator) (gen_eval l p) (Some (gen_eval r p))
+  | QNot x => QueryGen.gen_compound_call (if is_simple x then QueryGen.s_not_operator else QueryGen.c_not_operator) (gen_eval x p) None
+  end.
+
+Theorem gen_eval_eq : forall q p, gen_eval q p = eval E q p.
+Proof.
+  induction q as [a path t|a|l IHl r IHr|l IHl r IHr|x IH]; intro p; cbn [gen_eval eval].
+  - unfold QueryGen.gen_simple_call, eval_simple. destruct (resolve E path (attr_value a p)) as [v|]; [|reflexivity].
+    destruct t as [c rhs| |re fl|re fl|id]; try reflexivity.
+    destruct c; unfold QueryGen.gen_test; cbn [against_rhs negb compared QueryGen.cmp_operator meth_of_cmp run_test];
+      match goal with |- context [pycmp ?c ?a ?b] => destruct (pycmp c a b) end; reflexivity.
+  - reflexivity.
+  - rewrite IHl, IHr. destruct (is_simple l); reflexivity.
+  - rewrite IHl, IHr. destruct (is_simple l); reflexivity.
+  - rewrite IH. destruct (is_simple x); reflexivity.
+Qed.
+End GenEval.
+
+Corollary gen_eval_denote E q p : wf_query E q -> gen_eval E q p = RB (denote E q p).
+Proof. intro H. rewrite gen_eval_eq. apply eval_denote. exact H. Qed.
